@@ -166,7 +166,8 @@ def build(spec, pres=None, interp=True, weights_transform=None, dtype=None, requ
         for n in pres['factor_order']:
             t = spec['terms'][n]
             shape = [dom_size(spec['domains'][x]) for x in t['type']]
-            if t.get('pattern') is not None and not any(x in pres['dom_perm'] for x in t['type']):
+            if t.get('pattern') is not None and not any(x in pres['dom_perm'] for x in t['type']) \
+                    and not (requires_grad and t['pattern'].get('expand')):     # a stride-0 view cannot be an autograd leaf
                 from .ref.tensor_ref import mk_patterned
                 import sys as _sys
                 w = mk_patterned(t['pattern'], torch.float64)
